@@ -6,21 +6,30 @@ pub mod common;
 pub mod c01;
 pub mod c04;
 pub mod c06;
+pub mod c07;
+pub mod c08;
 pub mod c16;
 pub mod c16_graphs;
+pub mod c17;
+pub mod c18;
 pub mod c19;
 pub mod lattice_cfg;
 pub mod slice_oracles;
 pub mod standalone;
+pub mod stream_props;
 
-pub const ALL: &[&str] = &["C01", "C04", "C06", "C16", "C19"];
+pub const ALL: &[&str] = &["C01", "C04", "C06", "C07", "C08", "C16", "C17", "C18", "C19"];
 
 pub fn build(prop: &str, tier: Tier) -> Option<CheckDef> {
     match prop {
         "C01" => Some(c01::build(tier)),
         "C04" => Some(c04::build(tier)),
         "C06" => Some(c06::build(tier)),
+        "C07" => Some(c07::build(tier)),
+        "C08" => Some(c08::build(tier)),
         "C16" => Some(c16::build(tier)),
+        "C17" => Some(c17::build(tier)),
+        "C18" => Some(c18::build(tier)),
         "C19" => Some(c19::build(tier)),
         _ => None,
     }
